@@ -4,7 +4,7 @@ SPEC = {
     'lean_project': 'AgdbSearch',
     'props_module': 'AgdbSearch.Props.C14',
     'audit_file': 'AgdbSearch/Audit/C14.lean',
-    'full_theorems': ['C14_model_is_search', 'C14_origin_first', 'C14_sound', 'C14_sound_any_handler', 'C14_nodup', 'C14_complete', 'C14_exact', 'C14_terminates', 'C14_graph_exact', 'C14_graph_terminates', 'C14_bfs_distance', 'C14_dfs_order', 'C14_dfs_order_unique'],
+    'full_theorems': ['C14_model_is_search', 'C14_origin_first', 'C14_sound', 'C14_sound_any_handler', 'C14_nodup', 'C14_complete', 'C14_exact', 'C14_terminates', 'C14_graph_exact', 'C14_graph_terminates', 'C14_every_history', 'C14_bfs_distance', 'C14_dfs_order', 'C14_dfs_order_unique'],
     'partial_theorems': [],
     'counterexamples': ['C14_edge_origin_counterexample', 'C14_edge_origin_unreachable'],
     'driver': 'searchmodel',
@@ -17,12 +17,12 @@ SPEC = {
         "result is exactly the visit order of the recursive pre-order traversal with a global visited set, chains most-recent-first (reference given as a "
         "deterministic big-step relation); C14_sound_any_handler/C14_nodup for every handler (conditions, limit, offset); C14_terminates / "
         "C14_graph_terminates — the loop ends within an explicit potential, and the model's fuel is enough on every well-formed graph; "
-        "C14_graph_exact — the same on the database's abstract graph under the decidable check Graph.wfB. Proved on the model of the code WITH "
+        "C14_every_history — all of this for every state of the abstract graph reachable from the empty database by any sequence of insertions, removals with id reuse and value insertions (every operation preserves the well-formedness Graph.wfB). Proved on the model of the code WITH "
         "proposed_fixes/C14-edge-origin.diff; the unchanged code is refuted (C14_edge_origin_counterexample: from(-5) returns [-5,-4,3,2])."),
     'level_note': "Trusted: Lean kernel; the hand-written model (lean/AgdbSearch/AgdbSearch/Model) being a faithful rendering of the Rust search code — validated, not verified, by the `search` correspondence stream (every generated op line compared, public API only, ids included so slot reuse is reproduced); the abstract graph (slot table + most-recent-first chains) standing for graph.rs's four i64 arrays (C08's refinement); rustc/std (`sort_by` stable, VecDeque/Vec). Hypothesis `View.WF` (chains duplicate-free, owned by their node, lead to nodes) is a stated assumption of the theorems about the abstract graph.",
     'technique': 'Lean 4: inductive invariants (soundness, closure-at-termination completeness, strictly decreasing potential) over a generic work-list machine mirroring SearchImpl + the four iterators with lazy sibling chaining; differential correspondence + exhaustive small-graph enumeration against reference BFS/DFS',
     'design_ref': 'DESIGN.md §6 C14',
-    'assumptions': ['View.WF follows from the decidable Graph.wfB (wf_viewFwd/wf_viewRev), which the driver re-checks before every search of every generated case; that every reachable database state satisfies it is C08 (not proved here)', 'statements are about the tree with proposed_fixes/C14-edge-origin.diff applied'],
+    'assumptions': ['View.WF follows from the decidable Graph.wfB (wf_viewFwd/wf_viewRev); every state of the ABSTRACT graph reachable by node/edge/remove/kv operations satisfies it (reachable_wfB, Lemmas/GraphOps.lean) and the driver re-checks it before every search; that graph.rs refines this abstract graph (slot arrays, chains, LIFO free list) is C08 and is validated here only by the id-exact correspondence stream', 'statements are about the tree with proposed_fixes/C14-edge-origin.diff applied'],
     'quick': {'extra_args': []},
     'thorough': {'extra_args': []},
     'compare': 'lines',
